@@ -26,7 +26,8 @@ func init() {
 			"HOB generic header / PHIT / resource descriptor / GUID extension, VMSA, PAGE_INFO, ByteSizedCStr, Uint32SizedArray, TaggedDigest, digest list, TCGEventData, " +
 			"TCG_PCClientPCREvent, TCG_PCR_EVENT2, SP800-155 Event3, crypto-agile log); field values are boundary-biased random numbers. " +
 			"Around each value: encoding vs reference table, decode(encode), canary bytes behind the ABI size, every shorter output buffer, every truncation of the encoding, extensions, " +
-			"single-byte changes, out-of-range fields, each reserved field absent / documented-size zero / one non-zero byte, three reader kinds (bytes.Buffer, bytes.Reader, file). " +
+			"single-byte changes, out-of-range fields, each reserved field absent / documented-size zero / one non-zero byte, three reader kinds (bytes.Buffer, bytes.Reader, file); " +
+			"every []byte handed to an encoder or constructor (GUID HOB payload, event data, digests, SP800-155 locators, reset-block GUID, VMSA reserved fields, measured page) is also handed as the head of a buffer with 0xA5-filled spare capacity: same encoding as from a tight copy, all other rules again, spare bytes untouched. " +
 			"Oracle (one-directional): encoder output equals the reference encoding and touches exactly the ABI size; decode(encode(v)) = v with exactly the encoding consumed; in-range values and documented-size zero reserved fields are accepted; " +
 			"out-of-range fields and non-zero reserved fields are refused; an accepted byte string re-encodes to itself (SP800-155 trailing zero padding excepted). Refusals of malformed input are counted, never judged; a panic on malformed input counts as a refusal. " +
 			"non-trivial = distinct (structure, probe, outcome) cells",
@@ -36,6 +37,7 @@ func init() {
 			"VMSA fields behind XCR0 (valid_bitmap, x87_state_gpa, reserved_12) are outside the 0x670-byte launch image; PutVmsa's silence about non-zero values there is recorded as a note, not judged",
 			"TDVF section counts are kept below 2^27 (the count*32 wrap is C08's subject and costs gigabytes to exercise)",
 			"PAGE_INFO has unexported fields: it is driven through SnpMeasurement.Update* (digest = SHA-384 of the structure) and, for the remaining fields, by setting the unexported fields by name through reflection",
+			"CreateEFIHOBGUID pads with append(), which zeroes 1..7 bytes behind len(data) in the caller's buffer when it has spare capacity; the property is about encodings, so exactly this behaviour is counted and noted (const judgeHobPadInCallersBuffer), any other write into a caller's spare capacity is judged",
 			"size fields changed by the single-byte probe are skipped when the declared size exceeds 1 MiB (allocation behaviour is C07's subject)",
 		},
 		ShardsQuick: 8, ShardsThor: 16, TimeoutS: 600, TimeoutThor: 3000, Run: run,
